@@ -82,6 +82,7 @@ def r1_delegation(prog, rep: Report, fam: Family, mut: Cls, lines: str):
                 ret_read = any(isinstance(r.value, ast.Call) and isinstance(r.value.func, ast.Attribute)
                                and r.value.func.attr == "_read_line" and [src(a) for a in r.value.args] == [n] for r in rest)
                 ok = ret_entry and ret_read
+    index_guards(prog, rep, mut, "C12.R1")
     rep.check("C12.R1", g, "read-path", ok, f"returns self.{lines}[n] when it is a str, else reads line n through its offset",
               "the mutable read path does not discriminate `isinstance(entry, str)` between in-memory content and a file offset",
               scenario="f[1] = 'x'; f[1] seeks to the offset 'x' (TypeError) or f[2] returns the raw offset number")
@@ -295,6 +296,15 @@ def r4_save(prog, rep: Report, fam: Family, mut: Cls, rec: Cls, lines: str):
                 ok = end is not None and src(end) == le_p and file is not None and uses_line and len(p.args) == 1
             else:
                 ok = le_p in src(p) and src(lp.target) in src(p)
+    content_ok = True
+    content_why = ""
+    if len(loops) == 1:
+        for c in ast.walk(loops[0]):
+            if isinstance(c, ast.Call) and src(c.func) == "print" and c.args:
+                content_ok, content_why = writer_content_ok(c.args[0], src(loops[0].target))
+    rep.check("C12.R4", w, "writer-content", content_ok, "the line is written unmodified (only a trailing '\\n' may be stripped)",
+              content_why, scenario="a line ending in blanks or a tab (e.g. a TSV record whose last field is empty) is saved without "
+                                    "them: the reopened file differs from the list", line=loops[0].lineno if loops else None)
     rep.check("C12.R4", w, "writer", ok, f"each line written once, followed by {le_p}", why,
               scenario="save(out, line_ending='\\r\\n') writes '\\n', skips lines or writes them twice", line=loops[0].lineno if loops else None)
     opens = [c for c in calls_in(w.node) if ext_name(prog, w, c) == "open"]
@@ -304,6 +314,89 @@ def r4_save(prog, rep: Report, fam: Family, mut: Cls, rec: Cls, lines: str):
     rep.check("C12.R4", w, "output", ok, f"open({out_p}, 'w') only when {out_p} is a path",
               "the writer does not open the output for writing exactly when it is a path (append mode keeps old content)",
               scenario="saving twice to the same path appends the lines again: reopening gives twice the list")
+
+
+def writer_content_ok(arg: ast.expr, line_var: str):
+    """the printed expression is the line itself, possibly with exactly a trailing newline removed"""
+    e = arg
+    while isinstance(e, ast.Call) and isinstance(e.func, ast.Attribute):
+        name = e.func.attr
+        if name in ("rstrip", "removesuffix"):
+            a = const_value(e.args[0], None) if len(e.args) == 1 else None
+            if a != "\n":
+                return False, f"`{src(arg)}` strips more than a trailing newline from the line before writing it"
+        elif name in ("strip", "lstrip", "replace", "lower", "upper", "expandtabs", "title", "format"):
+            return False, f"`{src(arg)}` alters the line before writing it"
+        else:
+            return False, f"`{src(arg)}`: unclassified transformation .{name}() of the line"
+        e = e.func.value
+    if isinstance(e, ast.Name) and e.id == line_var:
+        return True, ""
+    return False, f"`{src(arg)}` is not the line being saved"
+
+
+def index_guards(prog, rep: Report, mut: Cls, rule: str):
+    """explicit index validation in the mutators must agree with list semantics: IndexError iff n < -len or n >= len"""
+    from ..orderings import NotAFormula, eval_order, weak_orderings
+    for name in ("__setitem__", "__delitem__", "insert"):
+        f = prog.method(mut, name)
+        idx = f.params[1]
+        # the mutator itself and the helpers it calls with the index
+        targets = [(f, idx)]
+        for c in calls_in(f.node):
+            if isinstance(c.func, ast.Attribute) and isinstance(c.func.value, ast.Name) and c.func.value.id == f.self_name:
+                h = prog.resolve(mut, c.func.attr)
+                if h is not None and not h.cls.is_external:
+                    for i, a in enumerate(c.args):
+                        if isinstance(a, ast.Name) and a.id == idx and len(h.params) > i + 1:
+                            targets.append((h, h.params[i + 1]))
+        for g, p in targets:
+            for n in walk_own(g.node):
+                if not isinstance(n, ast.If):
+                    continue
+                raises = [x for x in n.body if isinstance(x, ast.Raise)]
+                if not raises or not any(isinstance(x, ast.Name) and x.id == p for x in ast.walk(n.test)):
+                    continue
+                exc = raises[0].exc
+                excn = src(exc.func if isinstance(exc, ast.Call) else exc) if exc is not None else ""
+                if excn != "IndexError":
+                    continue
+                rep.fn(g)
+
+                def term(x):
+                    t = src(x).replace(" ", "")
+                    if t in (f"len({g.self_name})", f"len({g.self_name}._lines)"):
+                        return env["len"]
+                    if t in (f"-len({g.self_name})", f"-len({g.self_name}._lines)"):
+                        return env["neglen"]
+                    if const_value(x, None) == 0:
+                        return env["zero"]
+                    return None
+                class _IsInt(ast.NodeTransformer):
+                    def visit_Call(s_, c):
+                        if src(c.func) == "isinstance" and len(c.args) == 2 and src(c.args[0]) == p and src(c.args[1]) == "int":
+                            return ast.copy_location(ast.Constant(value=True), c)
+                        return c
+                import copy as _copy
+                test_int = _IsInt().visit(_copy.deepcopy(n.test))
+                try:
+                    bad = []
+                    W = [w for w in weak_orderings([p, "neglen", "zero", "len"]) if w["neglen"] <= w["zero"] <= w["len"]
+                         and (w["neglen"] == w["zero"]) == (w["zero"] == w["len"])]
+                    for env in W:
+                        want = env[p] < env["neglen"] or env[p] >= env["len"]
+                        if name == "insert":
+                            want = False
+                        if eval_order(test_int, env, term) != want:
+                            bad.append(env)
+                    rep.count("orderings_evaluated", len(W))
+                    rep.check(rule, g, f"index-guard:{name}", not bad,
+                              f"`{src(n.test)}` raises IndexError exactly for n < -len or n >= len",
+                              f"explicit index validation `{src(n.test)}` disagrees with list semantics for {bad[:2]}",
+                              scenario="f[-len(f)] = x (or `del f[-len(f)]`, pop() of the only line) raises IndexError although a "
+                                       "list accepts the index", line=n.lineno)
+                except NotAFormula as e:
+                    rep.unrec(rule, g, f"index-guard:{name}", f"index validation `{src(n.test)}` not evaluable: {e}", n.lineno)
 
 
 def r5_readonly(prog, rep: Report, fam: Family):
